@@ -337,7 +337,12 @@ func (c writeCase) nontrivialKey(changed bool) string {
 	return c.String()
 }
 
-func runCase(t *rapid.T, c writeCase) {
+// fataler is the part of *rapid.T / *testing.T the case runner needs.
+type fataler interface {
+	Fatalf(format string, args ...any)
+}
+
+func runCase(t fataler, c writeCase) {
 	lib.Ev.Class("update:" + strings.SplitN(c.updateKind, ":", 2)[0])
 	if strings.HasPrefix(c.updateKind, "vsW:") {
 		lib.Ev.Class(c.updateKind)
